@@ -365,6 +365,7 @@ func genDialogCfg(g *gen, nListen int, minB, maxB int) *Cfg {
 	}
 	c.Faults.MinLat = 50 * time.Microsecond
 	c.Faults.MaxLat = 4 * time.Millisecond
+	c.Faults.LatGrid = g.pick2(0, 4, 8, 16)
 	return c
 }
 
